@@ -143,7 +143,7 @@ def chain(case, P, d):
 
 # ----------------------------------------------------------------------------------------------- conditional pipelines
 COND_PIPES = ["joint_eval", "marginal_eval", "bayes_posterior", "set_y_evidence", "cond_entropies", "log_conditional",
-              "condition_on_dims", "kalman_scan", "lrbf_marginal", "lsem_log_conditional_y", "het_moments", "het_bound", "truncated", "nn_control", "update_in_program"]
+              "condition_on_dims", "kalman_scan", "lrbf_marginal", "lsem_log_conditional_y", "het_moments", "het_bound", "truncated", "nn_control", "update_in_program", "condition_explicit_traced"]
 
 
 def cond_param_shapes(pipe, Dx, Dy, kind):
@@ -162,6 +162,8 @@ def cond_param_shapes(pipe, Dx, Dy, kind):
         sh.update({"HM": (1, Dy, Dx), "Hb": (1, Dy), "HA": (1, Dy, Dy), "HW": (1, Dx + 1)})
     if pipe == "kalman_scan":
         sh.update({"KA": (1, Dx, Dx), "Kb": (1, Dx), "KQ": (1, Dx, Dx)})
+    if pipe == "condition_explicit_traced":
+        sh.update({"ia": (Dx,), "ib": (Dy,)})  # index lists carried as (rounded) numbers, so that they are traced under jit
     if pipe == "update_in_program":
         sh = {"pG": (1, Dx, Dx), "pmu": (1, Dx), "qG": (3, Dx, Dx), "qmu": (3, Dx), "uG": (2, Dx, Dx), "umu": (2, Dx)}
     if pipe == "nn_control":
@@ -215,6 +217,14 @@ def cond_pipe(case, P, d):
         c = None
     else:
         c = make_cond(kind, P)
+    if pipe == "condition_explicit_traced":
+        # condition_on_explicit with index lists that are arguments of the transformed function (traced under jit / vmap):
+        # partially observed filters pass per-step missing-data patterns this way
+        j = c.affine_joint_transformation(px)
+        ia = jnp.round(P["ia"]).astype(jnp.int32)
+        ib = jnp.round(P["ib"]).astype(jnp.int32)
+        pc = j.condition_on_explicit(ib, ia)
+        return pc(d[:, ib]).evaluate_ln(d[:, ia]).ravel()
     if pipe == "joint_eval":
         return c.affine_joint_transformation(px).evaluate_ln(d)
     if pipe == "marginal_eval":
